@@ -52,6 +52,16 @@ CHECKS = {
          'arity or name, shared variables) are compared by the real engine with compare/3 in both directions and the six @/== '
          'predicates; results must equal the reference order, agree with each other, and be transitive on triples.',
     note='Trusted: the order exactly as the statement words it; order of distinct variables and of 0.0 vs -0.0 not predicted.'),
+ 'C06': dict(
+    level='exploration',
+    technique='runtime monitoring: reference model of clause selection (Python unification over all clauses in order) + differential against a de-indexed twin predicate',
+    text='Generated predicates (1-10 clauses, arity 1-3, keys of every type incl. strings, partial lists, same-name structures, '
+         'variables that split index spans or move the indexed argument) are loaded static, dynamic-consulted and dynamic built by '
+         'assertz/asserta/retract histories; each is called with literal, near-miss, unbound and run-time computed arguments; the '
+         'ordered list of matching clause numbers must equal the reference and the twin. A call that does not return in 10 s '
+         '(normal < 1 ms) on these finite fact tables is a refuting event.',
+    note='Trusted: Python unification of finite terms. Rational keys are not generated. Known findings K2 (boxed integer call '
+         'arguments), K23 (asserta histories), K25 (hang after retract of a variable-key clause) are reported as KNOWN-FINDING.'),
 }
 
 NOT_APPLICABLE_REASON_UNBUILT = ('check designed in DESIGN.md but not built/validated yet in this session; '
